@@ -99,6 +99,10 @@ def run(ctx):
                 ctx.violation(f"TZ={z} utc={r['utc']}: created set to midnight {r['mid_want']} (modified {t}) is reported as {r['mid_created']}",
                               f"created-at-midnight:{tag}", rep)
                 continue
+            if "dev_dates" in r and r["dev_dates"] != r["dev_want"]:
+                ctx.violation(f"TZ={z} utc={r['utc']}: created / modified / accessed dates ON THE DEVICE are {r['dev_dates']}, set were {r['dev_want']}",
+                              f"device-date-fields:{tag}", rep)
+                continue
             want = t - t % 2
             offnote = "frac" if z.startswith(("IST", "NPT", "NST")) else "dst" if "," in z else "plain"
             ctx.nontrivial.add((z, r["utc"], t)) if offnote != "plain" else None
